@@ -16,7 +16,7 @@ LEVEL_TEXT = (
     'inverse permutations with matching endianness. OS timing, datagram loss and real sockets are out '
     'of scope.')
 
-FLOORS = {'C17-R1': 3, 'C17-R2': 1, 'C17-R3': 3, 'C17-R4': 2, 'C17-R5': 7, 'C17-R6': 4}
+FLOORS = {'C17-R1': 3, 'C17-R2': 1, 'C17-R3': 3, 'C17-R4': 2, 'C17-R5': 8, 'C17-R6': 4}
 
 HANDLERS = ('Actor::on_msg', 'Actor::on_timeout', 'Actor::on_random')
 
@@ -254,6 +254,38 @@ def r4_r5b_on_command(ctx, F):
     ctx.check(len(gr) == 1, 'C17-R5', 'duration-from-range', b,
               good='the duration is drawn from the given range (or is its start when the range is empty)',
               bad='on_command: SetTimer does not draw the duration from the given range')
+    # ... and when it is not drawn it is the range's LOWER bound: every value the stored duration can stand for is
+    # the result of gen_range or `range.start`
+    from taint import origin_vals
+    dur_ops = []
+    for c in am + oi:
+        co = c.args[1]
+        if co.get('k') in ('copy', 'move') and not co['place']['p']:
+            for d in [d for d in b.defs.get(co['place']['l'], []) if d[1] != 'call' and d[2]['rv']['k'] == 'agg' and
+                      d[2]['rv'].get('agg') == 'closure']:
+                for o in d[2]['rv']['ops']:
+                    if o.get('k') in ('copy', 'move') and 'time::Duration' in b.locals[o['place']['l']]['ty'] and \
+                            'Range<' not in b.locals[o['place']['l']]['ty']:
+                        dur_ops.append(o)
+    for c in ins:
+        for o in origins(b, c.args[2]) if len(c.args) > 2 else ():
+            if not isinstance(o, (str, tuple)) and o.is_('Add::add') and len(o.args) > 1:
+                dur_ops.append(o.args[1])
+    leaves = set()
+    for o in dur_ops:
+        leaves |= set(noref(x) for x in origin_vals(b, o))
+
+    def lower_or_drawn(v):
+        c_ = b.call_at(v.key) if v.kind == 'call' else None
+        if c_ is not None and not v.fields():
+            return c_.is_('Rng::gen_range', 'Rng::random_range')
+        return v.fields()[-1:] == ('.start',)
+    okl = bool(leaves) and all(lower_or_drawn(v) for v in leaves)
+    ctx.check(okl, 'C17-R5', 'undrawn-duration-is-lower-bound', b,
+              good='the duration is gen_range(..) or range.start on every path',
+              bad='on_command: SetTimer can use %s as the duration: when the range cannot be sampled the timer must '
+                  'wait for its LOWER bound (range.start), otherwise it fires earlier than the bound it was armed with'
+                  % sorted(repr(v) for v in leaves if not lower_or_drawn(v)))
     # CancelTimer never inserts
     blocks = arm_blocks(b, sw, 'CancelTimer')
     bad = [c for c in b.calls if c.bb in blocks and c.is_('Entry::or_insert_with', 'Entry::or_insert', 'HashMap::insert',
